@@ -75,6 +75,7 @@ inductive Val where
   | zstk (f : Form)                                 -- zero-valued Stack (nil inner pointer) in some form
   | zcnd (f : Form)
   | anys (xs : List Val)                            -- a Go []any
+  | opv (o : Op)                                    -- an Operator value held in an `any` (Marshal / Unmarshal rows)
   deriving Repr, Inhabited
 
 def Val.isNil : Val → Bool
